@@ -12,7 +12,9 @@ GLOBAL_SETTINGS = ["ignore_errors", "args_override_self", "dont_delimit_trailing
                    "propagate_version"]
 LOCAL_SETTINGS = ["next_line_help", "arg_required_else_help", "allow_missing_positional", "subcommand_required",
                   "allow_external_subcommands", "args_conflicts_with_subcommands",
-                  "subcommand_precedence_over_arg", "subcommand_negates_reqs", "no_binary_name", "multicall"]
+                  "subcommand_precedence_over_arg", "subcommand_negates_reqs", "no_binary_name", "multicall",
+                  # the command-level (doc-hidden) forms of three argument settings: applied to the arguments at build time
+                  "allow_hyphen_values", "allow_negative_numbers", "trailing_var_arg"]
 SETTINGS = GLOBAL_SETTINGS + LOCAL_SETTINGS
 
 
@@ -258,6 +260,10 @@ def f_core():
         extra=["-1", "-x"])
     add("pos-low-index-multi-negnum", cmd("p", [arg("files", num=(1, None), required=True, negnum=True), arg("target", required=True), arg("f", "f", action="SetTrue")]),
         extra=["-1", "-2", "-x"])
+    add("cmd-allow-hyphen-values", cmd("p", [arg("o", "o", "opt"), arg("f", "f", action="SetTrue"), arg("p1", num=(0, None))], allow_hyphen_values=True))
+    add("cmd-allow-negative-numbers", cmd("p", [arg("o", "o", "opt"), arg("f", "f", action="SetTrue"), arg("p1", num=(0, None))], allow_negative_numbers=True),
+        extra=["-1", "-2.5"])
+    add("cmd-trailing-var-arg", cmd("p", [arg("p1"), arg("rest", num=(0, None)), arg("f", "f", action="SetTrue")], trailing_var_arg=True))
     add("delim-multibyte", cmd("p", [arg("o", "o", "opt", delim="\u3001", action="Append"), arg("p1", num=(0, None), delim="\U0001F600")]),
         extra=["a\u3001b", "--opt=x\u3001y", "c\U0001F600d", "\u3001"])
     add("missing-delim-dont-trailing", cmd("p", [arg("o", "o", "opt", num=(0, None), delim=",", missing=["a,b"]), arg("p1", num=(0, None), delim=",")],
